@@ -31,6 +31,19 @@ func main() {
 		os.Exit(dump(os.Args[2:]))
 	case "terms":
 		os.Exit(terms(os.Args[2:]))
+	case "fieldreads":
+		repo := "/repo"
+		if len(os.Args) > 2 {
+			repo = os.Args[2]
+		}
+		p, err := load.Load(repo, load.Config{})
+		if err != nil {
+			fmt.Fprintln(os.Stderr, err)
+			os.Exit(2)
+		}
+		for _, l := range props.FieldReadsDebug(p) {
+			fmt.Println(l)
+		}
 	case "list":
 		for _, id := range props.IDs() {
 			fmt.Println(id)
